@@ -133,8 +133,20 @@ struct LzhDrain : Family {
 		Out o = callLib(plan, [&] { dec = std::make_unique<Archive::HuffLZ>(Archive::BitStreamReader(src.get(), in.bytes.size())); }, &what);
 		if (o != OkOut) ctx.fail("C04.equals-reference", "constructing the decompressor over " + std::to_string(in.bytes.size()) + " bytes failed: " + what);
 		size_t calls = 0;
+		size_t cloneAt = (mix64(plan.seed, 0xC0) % 3 == 0) ? 1 + static_cast<size_t>(mix64(plan.seed, 0xC1) % 12) : SIZE_MAX;
 		auto step = [&](const Line& op) {
 			++calls;
+			if (calls == cloneAt) {
+				// value semantics: the decoder in use is replaced by a copy of itself (the original is destroyed) or by one moved out
+				// of such a copy; the copy must continue the same byte sequence
+				o = callLib(plan, [&] {
+					auto c = std::make_unique<Archive::HuffLZ>(*dec);
+					if (mix64(plan.seed, 0xC2) & 1) { auto d = std::make_unique<Archive::HuffLZ>(std::move(*c)); c = std::move(d); }
+					dec = std::move(c);
+				}, &what);
+				if (o != OkOut) ctx.fail("C04.schedule-invariant", "copying a live decompressor failed: " + what);
+				ctx.count("probe.decoder_cloned_mid_stream");
+			}
 			if (op.verb == "getbuf") {
 				const char* ptr = nullptr;
 				size_t n = 0;
